@@ -5,7 +5,7 @@ from . import smf
 
 D20 = 300         # two VLQ size classes; the magnitudes are the business of C07/C13
 OBS = ['iterate', 'length', 'merged_track', 'save', 'play']
-EDITS = ['tracks.append', 'tracks.insert', 'del tracks[i]', 'tracks[i]=', 'tracks=', 'add_track', 'add_track(name)',
+EDITS = ['bad-save-then-repair', 'tracks.append', 'tracks.insert', 'del tracks[i]', 'tracks[i]=', 'tracks=', 'add_track', 'add_track(name)',
          'track.append', 'track.insert', 'track.pop', 'track[i]=', 'msg.time=', 'msg.attr=', 'tempo=',
          'ticks_per_beat=', 'type=', 'track.name=']
 
@@ -89,14 +89,29 @@ def same_obs(cx, a, b):
     return cx.And(*c)
 
 
-def apply_edit(cx, mido, mid, edit, k):
-    """One documented edit; returns False when the edit does not apply."""
+def apply_edit(cx, mido, mid, edit, k, handles=None):
+    """One documented edit; returns False when the edit does not apply.  `handles`: the track objects the
+    caller put into the file (edits go through them, as a user holding on to his lists would do)."""
     new_track = _mk_track(cx, mido, 'e%d_' % k, 1)
     new_msg = mido.Message('note_on', note=cx.int('e%d_n' % k, 0, 127), time=cx.int('e%d_t' % k, 0, D20))
     nt = len(mid.tracks)
     ti = cx.choice('e%d_ti' % k, nt) if nt else 0
     tr = mid.tracks[ti] if nt else None
-    if edit == 'tracks.append':
+    if handles is not None and nt and ti < len(handles):
+        tr = handles[ti]
+    if edit == 'bad-save-then-repair':
+        # a save that fails half-way (a message time that cannot be stored), then the time is put right
+        if tr is None or not len(tr):
+            return False
+        m = tr[-1]
+        good = m.time
+        vars(m)['time'] = 1.5
+        try:
+            mid.save(file=smf.out_file(cx))
+        except ValueError:
+            pass
+        vars(m)['time'] = good
+    elif edit == 'tracks.append':
         mid.tracks.append(new_track)
     elif edit == 'tracks.insert':
         mid.tracks.insert(0, new_track)
@@ -160,7 +175,7 @@ def apply_edit(cx, mido, mid, edit, k):
 
 @harness(labels=['same-as-fresh-file', 'independent-of-earlier-observations', 'no-hidden-state-beyond-the-merge-cache',
                  'applied'])
-def cache_step(cx, shape, pre, edits, post):
+def cache_step(cx, shape, pre, edits, post, plain=False):
     """observe (or not), edit(s), observe: must equal (a) the same observation on a freshly built MidiFile with
     the same contents and (b) the observation on a twin file that was built from the same values and edited the
     same way but never observed before."""
@@ -168,16 +183,18 @@ def cache_step(cx, shape, pre, edits, post):
 
     def build():
         tracks = [_mk_track(cx, mido, 't%d_' % i, n, with_tempo=(i == 0 and abs(n) > 0)) for i, n in enumerate(shape)]
-        return mido.MidiFile(type=1, ticks_per_beat=96, tracks=tracks)
-    mid = build()
-    twin = build()                     # same symbolic values, separate objects
+        if plain:
+            tracks = [list(t) for t in tracks]          # ordinary lists are accepted as tracks
+        return mido.MidiFile(type=1, ticks_per_beat=96, tracks=tracks), list(tracks)
+    mid, handles = build()
+    twin, twin_handles = build()                     # same symbolic values, separate objects
     public = set(vars(mido.MidiFile(type=1)))
     if pre != 'none':
         _, exc = cx.raises(lambda: observe(cx, mido, mid, pre), ValueError, TypeError, label='applied')
     for k, e in enumerate(edits):
-        if not apply_edit(cx, mido, mid, e, k):
+        if not apply_edit(cx, mido, mid, e, k, handles):
             return
-        apply_edit(cx, mido, twin, e, k)
+        apply_edit(cx, mido, twin, e, k, twin_handles)
     cx.reach('applied')
     fresh = mido.MidiFile(type=mid.type, ticks_per_beat=mid.ticks_per_beat,
                           tracks=[mido.MidiTrack(m.copy() for m in tr) for tr in mid.tracks])
@@ -233,7 +250,7 @@ def detached(cx, shape, obs):
 
 BOUNDS = {
     'quick': 'files of 0..2 tracks x 0..2 messages (deltas in 0..300 and notes symbolic, a set_tempo from a menu), every pre-observation in '
-             '{none, iterate, length, play, save} (thorough: also merged_track); one shape has an end_of_track inside the track; x every one of 17 documented edits (track index, message index '
+             '{none, iterate, length, play, save} (thorough: also merged_track); one shape has an end_of_track inside the track; x every one of 17 documented edits (plus a failed save followed by a repair; tracks also given as plain lists and edited through the reference the caller kept) (track index, message index '
              'and new values symbolic) x every post-observation, compared with a freshly built file and with a never-observed twin; objects returned by observations are mutated by the caller; selected two-edit histories',
     'thorough': 'all ordered pairs of edits between observations',
 }
@@ -260,6 +277,11 @@ def JOBS(tier):
              ('msg.time=', 'ticks_per_beat='), ('del tracks[i]', 'tracks.append'), ('tempo=', 'track.insert')]
     if tier != 'quick':
         pairs = [(a, b) for a in EDITS for b in EDITS]
+    for e in ('track.append', 'track.insert', 'track.pop', 'msg.time=', 'track[i]='):
+        for pre in ('iterate', 'length', 'save', 'merged_track'):
+            for post in ('iterate', 'save'):
+                jobs.append((cache_step, {'shape': [2, 1], 'pre': pre, 'edits': [e], 'post': post, 'plain': True},
+                             {'width': 0, 'cost': 5}))
     for sh in ([1], [2, 1], [-3], []):
         for o in ('merged_track', 'iterate', 'play'):
             jobs.append((detached, {'shape': sh, 'obs': o}, {'width': 0, 'cost': 5}))
